@@ -677,7 +677,10 @@ func genC09(g *G) {
 	// retried process objects (real signing processes; FROST needs 10 s per run: thorough tier, started ahead)
 	if g.Thorough() {
 		c10prefetch("rerun", c9rerunRun, "fsigning", "2")
+		c10prefetch("sigdrop", c9sigdropRun, "fsigning")
 	}
+	// a finished signing whose result nobody takes any more, then the caller's cancellation (real 2-relayer signing)
+	g.Emit("sigdrop", "esigning")
 	for _, n := range []string{"1", "2", "3"} {
 		g.Emit("rerun", "esigning", n)
 	}
@@ -799,6 +802,7 @@ func genC09(g *G) {
 	}
 	if g.Thorough() {
 		g.Emit("rerun", "fsigning", "2")
+		g.Emit("sigdrop", "fsigning")
 		g.Emit("rerun", "esigning", "5")
 	}
 	// random sequences of sessions over two ids in any order, retried sessions mixed in
